@@ -17,13 +17,13 @@ pub fn layouts() -> Vec<Layout> {
                         for blank_lines in [false, true] {
                             for end in 0..3u8 {
                                 for indent in ["", "    "] {
-                                    v.push(Layout { case, sep, colon, label_own_line, comment, blank_lines, end, indent, one_line: false });
+                                    v.push(Layout { case, sep, colon, label_own_line, comment, blank_lines, end, indent, one_line: false, trailing_sep: blank_lines && colon });
                                 }
                             }
                         }
                     }
                     for end in 0..2u8 {
-                        v.push(Layout { case, sep, colon, label_own_line, comment: 0, blank_lines: false, end, indent: "", one_line: true });
+                        v.push(Layout { case, sep, colon, label_own_line, comment: 0, blank_lines: false, end, indent: "", one_line: true, trailing_sep: end == 1 });
                     }
                 }
             }
